@@ -132,6 +132,11 @@ def conversion_exprs(spellings_by_kind, quick):
                 # any magnitude, also negative and complex ones, enters through `as`
                 for m in ("(2+3*i)", "(0-1.5)", "(0.5-2*i)") if quick else MAGS:
                     out.append("(%s as %s) as %s" % (m, s, t))
+        # the literal written without a blank between number and unit, for every spelling (also what the calculator prints)
+        for sp_ in sp:
+            for m in ("12", "1.5", "2.5e3", "1e-3", "0"):
+                out.append("%s%s as %s" % (m, sp_, targets[0]))
+                out.append("%s%s" % (m, sp_))
         # three-unit paths
         for a, b, c in itertools.islice(itertools.permutations(targets, 3), 0, 60 if quick else 2000):
             out.append("2.5 %s as %s as %s" % (a, b, c))
@@ -174,6 +179,14 @@ def measurement_exprs(rng, quick):
                     "-(-(2 %s))" % a, "-(2 %s) + 2 %s" % (a, a), "(1+i) * 2 %s - (1+i) * 2 %s" % (a, a)]
             out += ["6 %s %% 2" % a, "6 %s ^ 2" % a, "√(4 %s)" % a, "(3 %s)!" % a, "|3 %s|" % a, "⌈3.5 %s⌉" % a, "⌊3.5 %s⌋" % a,
                     "2 %s * 3 %s" % (a, a), "2 %s / 3 %s" % (a, a), "(2 %s)" % a, "2 %s + 1" % a, "1 - 2 %s" % a]
+    near = [("1000000000000.5 B", "1 TB"), ("2000.000000001 kg", "2 t"), ("1000.0000000001 m", "1 km"), ("1.0000000000001 km", "1000 m"), ("1000000.0000001 mg", "1 kg"),
+            ("1024.0000000001 KiB", "1 MiB"), ("100.00000000001 cm", "1 m"), ("1e12 nm + 0.001 nm", "1 km"), ("1000.0000000001 m", "1000 m"), ("1 km", "1000 m"), ("1 km", "999.9999999999 m")]
+    for a_, b_ in near:
+        out += ["%s - %s" % (a_, b_), "%s - %s" % (b_, a_), "%s + -(%s)" % (a_, b_), "(%s - %s) * 1e12" % (a_, b_), "%s + %s" % (a_, b_)]
+    for a in ("m", "kg", "B", "km"):
+        for num in ("(1+2*i)", "(0.5-3*i)", "(2*i)"):
+            for k in ("2", "-4", "0.5", "1e3", "(1+i)", "i"):
+                out += ["(%s as %s) / %s" % (num, a, k), "(%s as %s) * %s" % (num, a, k), "((%s as %s) / %s) * %s" % (num, a, k, k), "%s * (%s as %s)" % (k, num, a)]
     out += ["1 m + 1 kg", "1 kg - 1 B", "1 B + 1 °C", "1 km * 1 kg", "1 m / 1 s", "2 °C + 3 °C", "2 °F * 2", "-(5 °C)"]
     return out
 
@@ -212,6 +225,17 @@ def shape_pair_exprs(maxdim=4):
 
 def matrix_exprs(rng, quick):
     out = []
+    v3 = ["[1,2,3]", "[4,5,6]", "[7,8,10]", "[1,0,0]", "[0,1,0]", "[i,1,2]"]
+    for a in v3[:4]:
+        for b in v3[1:5]:
+            for c in v3[2:]:
+                out += ["%s cross %s cross %s" % (a, b, c), "%s × %s × %s" % (a, b, c), "%s cross %s dot %s" % (a, b, c), "%s dot %s cross %s" % (a, b, c),
+                        "%s - %s - %s" % (a, b, c), "%s cross %s - %s" % (a, b, c), "%s cross -%s cross %s" % (a, b, c)]
+    out += ["[1,2;3,4] * [0,1;1,0] * [2,0;0,3]", "[1,2;3,4] - [0,1;1,0] - [2,0;0,3]", "[1,2;3,4] / 2 / 2", "2 * [1,2;3,4] * 3", "[1,2;3,4] * [1;2] dot [3;4]",
+            "[1,2,3] cross [4,5,6] cross [7,8,10] cross [1,1,1]", "[1,2] dot [3,4] dot 5", "[1,2,3] dot [4,5,6] * [1,1]",
+            # entries that are matrices themselves (1x1 included) are refused
+            "[[5], 2]", "[[1,2,3]*[4;5;6], 1]", "[inverse([2]), 0]", "[transpose([3]), 1; 2, 3]", "[[1,2], 3]", "[identity(1), 1]", "[determinant([2]), 0]", "[[1]]", "[[[1]]]",
+            "ee(q) = [q, 1; 0, q]\nee([7])", "ee(q) = [q, 1; 0, q]\nee(7)", "[|[3,4]|, 1]", "[[3,4] dot [1,2], 1]"]
     shapes = [s for s in MATS if max(s) <= (4 if quick else 5)]
     for sa in shapes:
         for sb in shapes:
